@@ -9,6 +9,13 @@ package sequence
 // respOK: a response answers query q — same ID, same single question, QR set (C03).
 //@ spec func respOK(q *dns.Msg, r *dns.Msg) bool = r != nil && r.Id == q.Id && r.Response && len(r.Question) == 1 && len(q.Question) == 1 && r.Question[0] == q.Question[0]
 
+// qKept: the context still holds the same query (ID, question), client OPT and response OPT as in the pre-state
+//@ spec func qKept(qCtx *query_context.Context) bool = qCtx.query == old(qCtx.query) && qCtx.clientOpt == old(qCtx.clientOpt) && qCtx.respOpt == old(qCtx.respOpt) && qCtx.query.Id == old(qCtx.query.Id) && len(qCtx.query.Question) == old(len(qCtx.query.Question)) && (old(len(qCtx.query.Question)) == 1 ==> qCtx.query.Question[0] == old(qCtx.query.Question[0])) && (old(qCtx.clientOpt) != nil ==> old(qCtx.clientOpt).Hdr.Class == old(qCtx.clientOpt.Hdr.Class)) && (qCtx.respOpt != nil ==> qCtx.respOpt.Hdr.Rrtype == old(qCtx.respOpt.Hdr.Rrtype))
+// respX: the response in the context, if any, answers the context's query, is well-formed and carries no OPT
+//@ spec func respX(qCtx *query_context.Context) bool = qCtx.resp != nil ==> respOK(qCtx.query, qCtx.resp)
+// respWF: the response, if any, is a well-formed message of its own without OPT
+//@ spec func respWF(qCtx *query_context.Context) bool = qCtx.resp != nil ==> noOPT(qCtx.resp.Extra) && qCtx.resp != qCtx.query && wfMsg(qCtx.resp) && okRRs(qCtx.resp.Extra)
+
 // Behavioural contract every Executable (plugin, sequence, wrapped chain) must meet (C03, C15):
 // the query's ID and question are the same on return as on entry, the context still holds the
 // same query, client OPT and response OPT, and the response it leaves — if any — answers that
@@ -20,12 +27,7 @@ package sequence
 //@   modifies *
 //@   preserves comp(ChainNode), comp(ChainWalker), elemsof(*ChainNode), elemsof(Matcher)
 //@   ensures result == eErr(self, old(ghost(world, 0))) && ghost(world, 0) == eW(self, old(ghost(world, 0)))
-//@   ensures qCtx.query == old(qCtx.query) && qCtx.clientOpt == old(qCtx.clientOpt) && qCtx.respOpt == old(qCtx.respOpt)
-//@   ensures qCtx.query.Id == old(qCtx.query.Id) && len(qCtx.query.Question) == old(len(qCtx.query.Question))
-//@   ensures old(len(qCtx.query.Question)) == 1 ==> qCtx.query.Question[0] == old(qCtx.query.Question[0])
-//@   ensures qCtx.resp != nil ==> respOK(qCtx.query, qCtx.resp) && noOPT(qCtx.resp.Extra) && qCtx.resp != qCtx.query && wfMsg(qCtx.resp) && okRRs(qCtx.resp.Extra)
-//@   ensures qCtx.respOpt != nil ==> qCtx.respOpt.Hdr.Rrtype == 41
-//@   ensures old(qCtx.clientOpt) != nil ==> old(qCtx.clientOpt).Hdr.Class == old(qCtx.clientOpt.Hdr.Class)
+//@   ensures qKept(qCtx) && (old(respX(qCtx)) ==> respX(qCtx)) && (old(respWF(qCtx)) ==> respWF(qCtx))
 
 // ---------------------------------------------------------------------------
 // C06: reference semantics of sequences, written from the property statement.
@@ -61,6 +63,8 @@ package sequence
 // well-formed chains: every node is non-nil and executable, every matcher non-nil
 //@ spec func wfChain(c []*ChainNode) bool = forall i int :: 0 <= i && i < len(c) ==> c[i] != nil && (c[i].E != nil || c[i].RE != nil) && (forall k int :: 0 <= k && k < len(c[i].Matches) ==> c[i].Matches[k] != nil)
 // a walker is well-formed if its chain is, and so is every walker on its jump-back list
+// the same for a walker passed by value (the `next` argument of a wrapping plugin)
+//@ spec func wfK(c []*ChainNode, p int, jb *ChainWalker) bool = wfChain(c) && 0 <= p && wfW(jb)
 //@ spec func wfW(x *ChainWalker) bool = x == nil || (wfChain(x.chain) && 0 <= x.p && wfW(x.jumpBack))
 
 //@ interface Matcher.Match [C06]
@@ -69,6 +73,7 @@ package sequence
 //@   modifies *
 //@   preserves comp(ChainNode), comp(ChainWalker), elemsof(*ChainNode), elemsof(Matcher)
 //@   ensures result_0 == mOk(self, old(ghost(world, 0))) && result_1 == mErr(self, old(ghost(world, 0))) && ghost(world, 0) == mW(self, old(ghost(world, 0)))
+//@   ensures qKept(qCtx) && (old(respX(qCtx)) ==> respX(qCtx)) && (old(respWF(qCtx)) ==> respWF(qCtx))
 
 //@ interface RecursiveExecutable.Exec [C06]
 //@   log REExec
@@ -76,21 +81,25 @@ package sequence
 //@   modifies *
 //@   preserves comp(ChainNode), comp(ChainWalker), elemsof(*ChainNode), elemsof(Matcher)
 //@   ensures result == reErr(self, old(ghost(world, 0)), next.chain, next.p, next.jumpBack) && ghost(world, 0) == reW(self, old(ghost(world, 0)), next.chain, next.p, next.jumpBack)
+//@   ensures qKept(qCtx) && (old(respX(qCtx)) ==> respX(qCtx)) && (old(respWF(qCtx)) ==> respWF(qCtx))
 
 // ExecNext: executes exactly run(chain, p, jumpBack) — rules in order, matchers left to right with
 // short-circuit, errors abort, wrappers get the rest — and never modifies the walker or the chain.
-//@ func (w *ChainWalker) ExecNext [C06]
+//@ func (w *ChainWalker) ExecNext [C06, C03]
 //@   log ExecNext
 //@   requires w != nil && qCtx != nil && wfW(w)
+//@   ensures[C03] qKept(qCtx) && (old(respX(qCtx)) ==> respX(qCtx)) && (old(respWF(qCtx)) ==> respWF(qCtx))
 //@   modifies *
 //@   preserves comp(ChainNode), comp(ChainWalker), elemsof(*ChainNode), elemsof(Matcher)
 //@   ensures result == runE(w.chain, w.p, w.jumpBack, old(ghost(world, 0))) && ghost(world, 0) == runW(w.chain, w.p, w.jumpBack, old(ghost(world, 0)))
 //@   loop 0:
 //@     invariant 0 <= p && wfW(w)
+//@     invariant[C03] qKept(qCtx) && (old(respX(qCtx)) ==> respX(qCtx)) && (old(respWF(qCtx)) ==> respWF(qCtx))
 //@     invariant runE(w.chain, w.p, w.jumpBack, old(ghost(world, 0))) == runE(w.chain, p, w.jumpBack, ghost(world, 0))
 //@     invariant runW(w.chain, w.p, w.jumpBack, old(ghost(world, 0))) == runW(w.chain, p, w.jumpBack, ghost(world, 0))
 //@   loop 1:
 //@     invariant 0 <= p && p < len(w.chain) && wfW(w) && n == w.chain[p] && 0 <= it1 && it1 <= len(n.Matches)
+//@     invariant[C03] qKept(qCtx) && (old(respX(qCtx)) ==> respX(qCtx)) && (old(respWF(qCtx)) ==> respWF(qCtx))
 //@     invariant runE(w.chain, w.p, w.jumpBack, old(ghost(world, 0))) == rfE(w.chain, p, w.jumpBack, it1, ghost(world, 0))
 //@     invariant runW(w.chain, w.p, w.jumpBack, old(ghost(world, 0))) == rfW(w.chain, p, w.jumpBack, it1, ghost(world, 0))
 
@@ -121,7 +130,7 @@ package sequence
 //@   ensures next.jumpBack != nil ==> result == runE(next.jumpBack.chain, next.jumpBack.p, next.jumpBack.jumpBack, old(ghost(world, 0))) && ghost(world, 0) == runW(next.jumpBack.chain, next.jumpBack.p, next.jumpBack.jumpBack, old(ghost(world, 0)))
 
 //@ func (a *ActionJump) Exec [C06]
-//@   requires a != nil && qCtx != nil && wfChain(a.To) && wfChain(next.chain) && 0 <= next.p && wfW(next.jumpBack)
+//@   requires a != nil && qCtx != nil && wfChain(a.To) && wfK(next.chain, next.p, next.jumpBack)
 //@   modifies *
 //@   preserves comp(ChainNode), comp(ChainWalker), elemsof(*ChainNode), elemsof(Matcher)
 //@   ensures calls(ExecNext) == 1 && fresh(arg(ExecNext, 0, 0).jumpBack) && arg(ExecNext, 0, 0).jumpBack.chain == next.chain && arg(ExecNext, 0, 0).jumpBack.p == next.p && arg(ExecNext, 0, 0).jumpBack.jumpBack == next.jumpBack
